@@ -185,3 +185,244 @@ fn c20_out_of_range_input_acts_as_bound() {
     vcover!(x.is_nan() && which == 3, "witness: release NaN");
     vcover!(x == 0.5 && which == 1, "witness: decay in range");
 }
+
+// =====================================================================
+// C01  range, shape, exact levels (all phases, all levels)
+// =====================================================================
+
+fn set_acc(a: &mut Adsr, acc: u32) {
+    let fs = a.phase_accumulator.verif_fs();
+    let inc = a.phase_accumulator.verif_inc();
+    a.phase_accumulator = PhaseAccumulator::verif_from_parts(fs, acc, acc, inc, false);
+}
+
+// @harness prop=C01,C17 tier=quick timeout=1200
+// @about any Inv_adsr state: any of the 5 phases, any counter value (all 2^24), any f32 start/sustain/gate-off level in [0,1]: calc_value() (the value tick() stores) lies in [0,1]; attack: >= the level at which it started; decay: >= the sustain level; release: <= the level at which it started; sustain: exactly the sustain level; rest: exactly 0.0. No index/overflow panic
+#[kani::proof]
+fn c01_value_range_and_shape_bounds() {
+    let a = any_adsr(1000.0);
+    let v = a.calc_value();
+    vassert!(v >= 0.0 && v <= 1.0, "C01/value/in-[0,1]");
+    match a.state {
+        State::Attack => vassert!(v >= a.value_when_gate_on_received, "C01/attack/not-below-start-level"),
+        State::Decay => vassert!(v >= a.sustain_level.0, "C01/decay/not-below-sustain-level"),
+        State::Sustain => vassert!(v.to_bits() == a.sustain_level.0.to_bits() || (v == 0.0 && a.sustain_level.0 == 0.0), "C01/sustain/exactly-sustain-level"),
+        State::Release => vassert!(v <= a.value_when_gate_off_received, "C01/release/not-above-start-level"),
+        State::AtRest => vassert!(v == 0.0, "C01/rest/exactly-0"),
+    }
+    vcover!(a.state == State::Attack && a.phase_accumulator.verif_acc() == ACC_MAX, "witness: last attack position");
+    vcover!(a.state == State::Release && a.value_when_gate_off_received == 1.0, "witness: release from full scale");
+    vcover!(a.state == State::Decay && a.sustain_level.0 == 0.0, "witness: decay to zero sustain");
+}
+
+// @harness prop=C01,C03 tier=quick timeout=600
+// @about exact levels at the segment joints, for every f32 level in [0,1]: a phase entered at counter 0 outputs exactly the level it starts from (attack: the latched gate-on level; release: the latched gate-off level; decay: exactly 1.0 for every sustain level), and the last counter value of decay / release outputs exactly the sustain level / 0.0, the last counter value of attack exactly 1.0 -- so the value handed over at every phase boundary is the target level itself
+#[kani::proof]
+fn c01_exact_levels_at_segment_joints() {
+    let mut a = any_adsr(1000.0);
+    let at_end: bool = kani::any();
+    let tail: u32 = kani::any();
+    kani::assume(tail < (1 << 14));
+    // start of a segment, or anywhere in the last table cell (clamped neighbour: flat at the end value)
+    set_acc(&mut a, if at_end { (1023 << 14) | tail } else { 0 });
+    let v = a.calc_value();
+    match (a.state, at_end) {
+        (State::Attack, false) => vassert!(v == a.value_when_gate_on_received, "C01/attack/starts-exactly-at-latched-level"),
+        (State::Attack, true) => vassert!(v == 1.0, "C01/attack/ends-exactly-at-1.0"),
+        (State::Decay, false) => vassert!(v == 1.0, "C01/decay/starts-exactly-at-1.0"),
+        (State::Decay, true) => vassert!(v == a.sustain_level.0, "C01/decay/ends-exactly-at-sustain-level"),
+        (State::Release, false) => vassert!(v == a.value_when_gate_off_received, "C01/release/starts-exactly-at-latched-level"),
+        (State::Release, true) => vassert!(v == 0.0, "C01/release/ends-exactly-at-0.0"),
+        _ => (),
+    }
+    vcover!(a.state == State::Decay && !at_end && a.sustain_level.0 > 0.0 && a.sustain_level.0 < 1.0e-7, "witness: tiny sustain");
+    vcover!(a.state == State::Attack && at_end && tail == 0x3fff, "witness: very last attack position");
+}
+
+// @harness prop=C01 tier=quick timeout=1200
+// @about curve fidelity, all 2^24 counter values of both tables, normalised segments (attack from 0 to 1, release from 1 to 0): the output is within 0.5% of full scale of the documented RC curve for EVERY phase of the cell it is in: decided as out in [max(R_i,R_i+1) - 0.005, min(R_i,R_i+1) + 0.005] where R_i, R_i+1 are the reference curve (generated at run time by lib/oracle.py from the documented formula: attack (1-exp(-x/3))/(1-exp(-4/3)), decay (exp(-x)-exp(-4))/(1-exp(-4)), x = 4*phase) at the two cell edges; the RC curve is monotone, so it stays between them. A stretched segment is value = start + (target-start)*normalised (one affine expression), whose error is this one times |target-start| <= 1
+#[kani::proof]
+fn c01_curve_fidelity_normalised() {
+    let acc: u32 = kani::any();
+    kani::assume(acc <= ACC_MAX);
+    let rel: bool = kani::any();
+    let mut a = Adsr::new(1000.0);
+    a.state = if rel { State::Release } else { State::Attack };
+    a.value_when_gate_on_received = 0.0;
+    a.value_when_gate_off_received = 1.0;
+    set_acc(&mut a, acc);
+    let v = a.calc_value() as f64;
+    let i = (acc >> 14) as usize;
+    let (r0, r1) = if rel { (DEC_REF[i], DEC_REF[i + 1]) } else { (ATT_REF[i], ATT_REF[i + 1]) };
+    let (lo, hi) = if r0 < r1 { (r0, r1) } else { (r1, r0) };
+    vassert!(v >= hi - 0.005 && v <= lo + 0.005, "C01/fidelity/within-0.5%-of-documented-RC-curve");
+    vcover!(rel && i == 0, "witness: steepest release cell");
+    vcover!(!rel && i == 1023, "witness: last attack cell");
+}
+
+/// steepest cell of each table times 1024 (slope per unit phase), as read from the tables
+const ATT_MAX_STEP: f64 = 0.0017687427;
+const DEC_MAX_STEP: f64 = 0.0039753;
+
+// @family prop=C01,C03 name=c03_curve_slice macro=c03_curve_slice n=256 quick=0,1,127,128,254,255 seeded=2 timeout=1500
+// @about slice k = the 2^16 consecutive counter values [k*2^16,(k+1)*2^16) (4 table cells), BOTH tables, normalised segments (attack 0->1, release 1->0), acc symbolic in the slice: (a) |out(acc) - I(acc)| <= 2^-23 where I is the exact (f64) linear interpolant of the table with in-cell fraction low14/2^14 and the neighbour clamped at the last entry; (b) adjacent counter values: attack never decreases, release never increases (monotone within a phase), and |out(acc+1) - out(acc)| <= steepest table step * 2^-14 + 2 ulp: interpolated, not a staircase. quick: first/last/middle slices + VERIF_SEED-chosen; thorough: all 256 = all 2^24 values
+macro_rules! c03_curve_slice {
+    ($name:ident, $k:expr) => {
+        #[kani::proof]
+        fn $name() {
+            let low: u32 = kani::any();
+            kani::assume(low < (1 << 16));
+            let acc: u32 = (($k as u32) << 16) | low;
+            kani::assume(acc < ACC_MAX);
+            let rel: bool = kani::any();
+            let mut a = Adsr::new(1000.0);
+            a.state = if rel { State::Release } else { State::Attack };
+            a.value_when_gate_on_received = 0.0;
+            a.value_when_gate_off_received = 1.0;
+            set_acc(&mut a, acc);
+            let y = a.calc_value();
+            let i = (acc >> 14) as usize;
+            let j = if i + 1 < 1024 { i + 1 } else { 1023 };
+            let (t0, t1) = if rel {
+                (lookup_tables::ADSR_DECAY_TABLE[i] as f64, lookup_tables::ADSR_DECAY_TABLE[j] as f64)
+            } else {
+                (lookup_tables::ADSR_ATTACK_TABLE[i] as f64, lookup_tables::ADSR_ATTACK_TABLE[j] as f64)
+            };
+            let fr = (acc & 0x3fff) as f64 / 16384.0;
+            let e = y as f64 - (t0 + (t1 - t0) * fr);
+            vassert!(e <= 1.1920928955078125e-7 && e >= -1.1920928955078125e-7, "C03/curve/is-the-linear-interpolant-of-the-table");
+            set_acc(&mut a, acc + 1);
+            let y2 = a.calc_value();
+            let d = y2 as f64 - y as f64;
+            let step = (if rel { DEC_MAX_STEP } else { ATT_MAX_STEP }) / 16384.0 + 2.0 * 1.1920928955078125e-7;
+            if rel {
+                vassert!(d <= 0.0, "C01/release/non-increasing-within-phase");
+            } else {
+                vassert!(d >= 0.0, "C01/attack/non-decreasing-within-phase");
+            }
+            vassert!(d <= step && d >= -step, "C03/curve/adjacent-positions-differ<=steepest-slope*step+2ulp");
+            vcover!(acc & 0x3fff == 0x3fff, "witness: pair crosses a cell boundary");
+            vcover!(rel, "witness: decay table");
+        }
+    };
+}
+
+// @harness prop=C03,C01 tier=quick timeout=600
+// @about table facts as read through the code's constants (all 1024 entries of both tables): attack starts at exactly 0.0 and ends at exactly 1.0, decay starts at exactly 1.0 and ends at exactly 0.0; attack is non-decreasing and decay non-increasing from entry to entry; no cell is steeper than ATT_MAX_STEP / DEC_MAX_STEP; every entry is within 0.05% of the documented RC reference at phase i/1023 (the table generator's grid)
+#[kani::proof]
+fn c03_table_facts() {
+    let i: usize = kani::any();
+    kani::assume(i < 1023);
+    let (a0, a1) = (lookup_tables::ADSR_ATTACK_TABLE[i] as f64, lookup_tables::ADSR_ATTACK_TABLE[i + 1] as f64);
+    let (d0, d1) = (lookup_tables::ADSR_DECAY_TABLE[i] as f64, lookup_tables::ADSR_DECAY_TABLE[i + 1] as f64);
+    vassert!(lookup_tables::ADSR_ATTACK_TABLE[0] == 0.0 && lookup_tables::ADSR_ATTACK_TABLE[1023] == 1.0, "C03/table/attack-endpoints-0-and-1");
+    vassert!(lookup_tables::ADSR_DECAY_TABLE[0] == 1.0 && lookup_tables::ADSR_DECAY_TABLE[1023] == 0.0, "C03/table/decay-endpoints-1-and-0");
+    vassert!(a1 >= a0 && a1 - a0 <= ATT_MAX_STEP + 1.0e-9, "C03/table/attack-monotone-and-slope-bounded");
+    vassert!(d1 <= d0 && d0 - d1 <= DEC_MAX_STEP + 1.0e-9, "C03/table/decay-monotone-and-slope-bounded");
+    vassert!(lookup_tables::ADSR_CURVE_LUT_SIZE == 1024, "C03/table/size-1024");
+    vcover!(i == 0, "witness: first cell");
+    vcover!(i == 1022, "witness: last cell");
+}
+
+// @harness prop=C03,C02 tier=quick timeout=900
+// @about gate events arriving at any moment: any Inv_adsr state whose stored output is the current output (value == calc_value(), as after any tick), gate_on() / gate_off(): when the event is accepted the new segment's first output calc_value() equals the output before the event exactly (no click) and the counter restarts at 0; when it is ignored (gate_on in attack; gate_off in release / at rest) the envelope is bit-identical to before
+#[kani::proof]
+fn c03_gate_events_start_from_current_level() {
+    let mut a = any_adsr(1000.0);
+    let cur = a.calc_value();
+    a.value = cur;
+    let before = a;
+    let on: bool = kani::any();
+    if on { a.gate_on(); } else { a.gate_off(); }
+    let accepted = if on { before.state != State::Attack } else {
+        before.state == State::Attack || before.state == State::Decay || before.state == State::Sustain
+    };
+    if accepted {
+        vassert!(a.state == if on { State::Attack } else { State::Release }, "C02/gate/accepted-event-starts-attack-or-release");
+        vassert!(a.phase_accumulator.verif_acc() == 0 && !a.phase_accumulator.verif_flag(), "C02/gate/phase-counter-restarts");
+        vassert!(a.calc_value() == cur, "C03/gate/new-segment-starts-at-the-level-being-output");
+        vassert!(a.value == cur, "C03/gate/stored-output-untouched-by-the-event");
+        let mut r = a;
+        r.state = before.state;
+        r.phase_accumulator = before.phase_accumulator;
+        if on { r.value_when_gate_on_received = before.value_when_gate_on_received; }
+        else { r.value_when_gate_off_received = before.value_when_gate_off_received; }
+        vassert!(same_adsr(&r, &before), "C02/gate/nothing-else-changes");
+    } else {
+        vassert!(same_adsr(&a, &before), "C02/gate/ignored-event-changes-nothing");
+    }
+    vcover!(on && before.state == State::Release, "witness: re-trigger during release");
+    vcover!(!on && before.state == State::Attack, "witness: gate-off during attack");
+    vcover!(on && before.state == State::Attack, "witness: gate-on ignored in attack");
+    vcover!(!on && before.state == State::AtRest, "witness: gate-off ignored at rest");
+}
+
+// =====================================================================
+// C02  tick: state machine and timing
+// =====================================================================
+
+// @harness prop=C02,C17,C01 tier=quick timeout=1500
+// @about one tick() from any Inv_adsr state, any sample rate in [100,192000] (symbolic f32), any stored times in [0.001,20] s and levels; inc := the increment the tick installed (read back from the counter): (1) no transition and counter advanced by exactly inc unless counter+inc >= 2^24; otherwise exactly attack->decay, decay->sustain, release->rest with the counter back at 0 and no pending flag; sustain and rest never move and leave the counter alone; (2) Inv_adsr is preserved, parameters and latched levels untouched, and the stored output is in [0,1]; no overflow / panic (Kani checks; float->int casts saturate). That inc is the right one for the time of the current phase is c02_tick_uses_time_of_current_phase and c02_increment_accuracy
+#[kani::proof]
+fn c02_tick_state_machine() {
+    let fs: f32 = kani::any();
+    kani::assume(fs >= 100.0 && fs <= 192_000.0);
+    let mut a = any_adsr(fs);
+    let before = a;
+    a.tick();
+    let acc0 = before.phase_accumulator.verif_acc();
+    let timed = before.state == State::Attack || before.state == State::Decay || before.state == State::Release;
+    if timed {
+        let inc = a.phase_accumulator.verif_inc();
+        let done = acc0 as u64 + inc as u64 >= (1u64 << 24);
+        if done {
+            let next = match before.state {
+                State::Attack => State::Decay,
+                State::Decay => State::Sustain,
+                _ => State::AtRest,
+            };
+            vassert!(a.state == next, "C02/tick/phase-ends-exactly-when-counter-completes-and-advances-in-order");
+            vassert!(a.phase_accumulator.verif_acc() == 0, "C02/tick/next-phase-starts-at-0");
+        } else {
+            vassert!(a.state == before.state, "C02/tick/no-transition-before-the-counter-completes");
+            vassert!(a.phase_accumulator.verif_acc() == acc0 + inc, "C02/tick/counter-advances-by-the-installed-increment");
+        }
+    } else {
+        vassert!(a.state == before.state, "C02/tick/sustain-and-rest-persist");
+        vassert!(a.phase_accumulator == before.phase_accumulator, "C02/tick/untimed-phases-leave-the-counter-alone");
+    }
+    vassert!(a.phase_accumulator.verif_acc() <= ACC_MAX && !a.phase_accumulator.verif_flag()
+        && a.phase_accumulator.verif_last() == a.phase_accumulator.verif_acc(), "C02/tick/counter-invariant-preserved");
+    vassert!(a.value >= 0.0 && a.value <= 1.0, "C01/tick/output-in-[0,1]");
+    let mut r = a;
+    r.state = before.state;
+    r.phase_accumulator = before.phase_accumulator;
+    r.value = before.value;
+    vassert!(same_adsr(&r, &before), "C02/tick/parameters-and-latched-levels-untouched");
+    vcover!(before.state == State::Attack && a.state == State::Decay, "witness: attack -> decay");
+    vcover!(before.state == State::Decay && a.state == State::Sustain, "witness: decay -> sustain");
+    vcover!(before.state == State::Release && a.state == State::AtRest, "witness: release -> rest");
+    vcover!(before.state == State::Release && a.state == State::Release, "witness: mid-release tick");
+}
+
+// @harness prop=C02 tier=quick timeout=900
+// @about which time a tick uses (concrete instance: 1 kHz; attack 0.5 s, decay 0.25 s, release 2 s stored -- all three distinct): from any phase and any counter value the increment installed by tick() is the one PhaseAccumulator::set_period gives for the time of the CURRENT phase (differential against the real function), so a time changed in mid-phase applies to the remaining part of that phase from the next tick on; the stored output equals calc_value() of the new state
+#[kani::proof]
+fn c02_tick_uses_time_of_current_phase() {
+    let mut a = any_adsr(1000.0);
+    a.attack_time = TimePeriod(0.5);
+    a.decay_time = TimePeriod(0.25);
+    a.release_time = TimePeriod(2.0);
+    let before = a;
+    a.tick();
+    let timed = before.state == State::Attack || before.state == State::Decay || before.state == State::Release;
+    if timed {
+        let mut p = PhaseAccumulator::<24, 10>::new(1000.0);
+        p.set_period(match before.state { State::Attack => 0.5, State::Decay => 0.25, _ => 2.0 });
+        vassert!(a.phase_accumulator.verif_inc() == p.verif_inc(), "C02/tick/increment-is-that-of-the-current-phase-time");
+        vassert!(p.verif_inc() >= 1, "C02/tick/increment-at-least-one-counter-step");
+    }
+    vassert!(a.value.to_bits() == a.calc_value().to_bits(), "C01/tick/output-is-calc_value-of-new-state");
+    vcover!(before.state == State::Decay, "witness: decay");
+    vcover!(before.state == State::Release, "witness: release");
+}
